@@ -186,7 +186,7 @@ auto ebpps_sketch<T,A>::get_result() const -> result_type {
 
 template<typename T, typename A>
 void ebpps_sketch<T, A>::merge(ebpps_sketch<T, A>&& sk) {
-  if (sk.get_cumulative_weight() == 0.0) return;
+  if (sk.get_cumulative_weight() == 0.0) { reduce_k(sk.k_); return; }
   else if (sk.get_cumulative_weight() > get_cumulative_weight()) {
     // need to swap this with sk to merge smaller into larger
     std::swap(*this, sk);
@@ -197,7 +197,7 @@ void ebpps_sketch<T, A>::merge(ebpps_sketch<T, A>&& sk) {
 
 template<typename T, typename A>
 void ebpps_sketch<T, A>::merge(const ebpps_sketch<T, A>& sk) {
-  if (sk.get_cumulative_weight() == 0.0) return;
+  if (sk.get_cumulative_weight() == 0.0) { reduce_k(sk.k_); return; }
   else if (sk.get_cumulative_weight() > get_cumulative_weight()) {
     // need to swap this with sk to merge, so make a copy, swap,
     // and use that to merge
@@ -206,6 +206,19 @@ void ebpps_sketch<T, A>::merge(const ebpps_sketch<T, A>& sk) {
     internal_merge(sk_copy);
   } else {
     internal_merge(sk);
+  }
+}
+
+// take over a smaller k: the current sample is downsampled to the new bound
+// (an empty sketch adds no items, but the merged sketch is still bounded by the smaller k)
+template<typename T, typename A>
+void ebpps_sketch<T, A>::reduce_k(uint32_t other_k) {
+  if (other_k >= k_) return;
+  k_ = other_k;
+  if (cumulative_wt_ > 0.0) {
+    const double new_rho = std::min(1.0 / wt_max_, k_ / cumulative_wt_);
+    sample_.downsample(new_rho / rho_);
+    rho_ = new_rho;
   }
 }
 
@@ -219,7 +232,7 @@ void ebpps_sketch<T, A>::internal_merge(O&& sk) {
 
   const double final_cum_wt = cumulative_wt_ + sk.cumulative_wt_;
   const double new_wt_max = std::max(wt_max_, sk.wt_max_);
-  k_ = std::min(k_, sk.k_);
+  reduce_k(sk.k_); // also when sk holds no items (this sketch was the empty one before the swap)
   const uint64_t new_n = n_ + sk.n_;
 
   // Insert sk's items with the cumulative weight
